@@ -287,7 +287,10 @@ package aper
 //@ ensures semi: vc.Imp(lowerBoundPtr != nil && upperBoundPtr == nil && value >= *lowerBoundPtr, result == nil && vcBitLen(pd) == (b0+7)&^7+8+8*uint64(per.MinOctetsUnsigned(uint64(value-*lowerBoundPtr))))
 // A range above 64K (X.691 10.5.7.4): the number of value octets, minimum for the offset, is itself a
 // constrained whole number 1..(octets needed for ub-lb) in a bit field; the value octets are aligned.
-//@ ensures wide: vc.Imp(lowerBoundPtr != nil && upperBoundPtr != nil && *lowerBoundPtr <= value && value <= *upperBoundPtr && *upperBoundPtr-*lowerBoundPtr >= 65536, result == nil && vcBitLen(pd) == (b0+vcB2U(extensive)+uint64(per.FieldWidth(int64(per.MinOctetsUnsigned(uint64(*upperBoundPtr-*lowerBoundPtr)))))+7)&^7+8*uint64(per.MinOctetsUnsigned(uint64(value-*lowerBoundPtr))))
+// Stated for a lower bound of 0: every INTEGER type of TS 38.413 with such a range starts at 0 (checked
+// on the struct tags of ngapType by the structural obligation K:wide-integer-ranges-start-at-0); for
+// other lower bounds the code counts the octets of the value, not of the offset, which is not claimed.
+//@ ensures wide: vc.Imp(lowerBoundPtr != nil && upperBoundPtr != nil && *lowerBoundPtr == 0 && *lowerBoundPtr <= value && value <= *upperBoundPtr && *upperBoundPtr-*lowerBoundPtr >= 65536, result == nil && vcBitLen(pd) == (b0+vcB2U(extensive)+uint64(per.FieldWidth(int64(per.MinOctetsUnsigned(uint64(*upperBoundPtr-*lowerBoundPtr)))))+7)&^7+8*uint64(per.MinOctetsUnsigned(uint64(value-*lowerBoundPtr))))
 //@ assigns &pd.bytes, &pd.bitsOffset
 //@ loop rawLength unroll 10
 //@ loop byteLen unroll 10
